@@ -63,21 +63,22 @@ fn simple_expected(tt: &TT, toks: &[String]) -> Option<String> {
     if v.is_empty() { Some(one(&a)) } else { Some(v.iter().map(|x| { let mut l = a.clone(); l.push(*x); one(&l) }).collect::<Vec<_>>().join(";")) }
 }
 
-struct Session<'a> { d: Ddnnf, file: &'a GenFile, tt: &'a TT, export: String }
+struct Session<'a> { d: Ddnnf, file: &'a GenFile, tt: TT, export: String, cnf: bool, cnf_text: String }
 
 fn run_line(out: &mut Out, s: &mut Session, line: &str, save_dir: &str) {
     let toks: Vec<String> = line.split_whitespace().map(|x| x.to_string()).collect();
     if resource_heavy(&toks) { out.count("skipped_resource_heavy", 1); return; }
     let line = line.replace("SAVEDIR", save_dir);
     let before_vars = s.d.number_of_variables;
+    let before_cnf = if s.cnf { saved_cnf(&mut s.d, save_dir) } else { String::new() };
     let reply = guarded(|| s.d.handle_stream_msg(&line));
     out.eval(Some(format!("{}|{}", s.file.n, line)));
     match reply {
         Err(e) => {
             out.fail("stream-panic", &s.file.text(), &line, &format!("panic: {e}"), "a result or an error E1..E6");
             // the instance may be in an arbitrary state after a panic: start over (the driver follows via a fresh circuit block)
-            s.d = load(s.file).unwrap();
-            out.circuit(&s.export, &circuit_line(&s.d));
+            if s.cnf { s.d = load_cnf_session(&s.cnf_text, save_dir); s.tt = s.file.tt(); s.export = export_nodes(&s.d); }
+            else { s.d = load(s.file).unwrap(); out.circuit(&s.export, &circuit_line(&s.d)); }
         }
         Ok(r) => {
             if r.contains('\n') && !toks.first().map(|c| c == "t-wise").unwrap_or(false) { out.fail("multi-line-reply", &s.file.text(), &line, &r, "a one-line reply"); }
@@ -85,18 +86,45 @@ fn run_line(out: &mut Out, s: &mut Session, line: &str, save_dir: &str) {
                 out.count(&format!("err_{}", &r[..2]), 1);
                 // a rejected line leaves the loaded model unchanged
                 if s.d.number_of_variables != before_vars || export_nodes(&s.d) != s.export { out.fail("rejected-line-changed-model", &s.file.text(), &line, "model changed", "model unchanged"); }
+                if s.cnf { let now = saved_cnf(&mut s.d, save_dir); if now != before_cnf { out.fail("rejected-line-changed-clauses", &s.file.text(), &line, &now, &before_cnf); } }
             } else {
                 out.count("ok_replies", 1);
-                if let Some(want) = simple_expected(s.tt, &toks) { out.count("oracle_checked", 1); if want != r { out.fail("stream-answer", &s.file.text(), &line, &r, &want); } }
+                if let Some(want) = simple_expected(&s.tt, &toks) { out.count("oracle_checked", 1); if want != r { out.fail("stream-answer", &s.file.text(), &line, &r, &want); } }
             }
             if r.starts_with('E') && !is_err(&r) && toks.first().map(|c| c != "exit").unwrap_or(true) && r.len() > 1 && r.as_bytes()[1].is_ascii_digit() {
                 out.fail("undocumented-error-code", &s.file.text(), &line, &r, "E1..E6");
+            }
+            if s.cnf {
+                // an accepted clause-update / undo-update changes the model: the oracle follows the stored CNF (C12 decides its exactness)
+                if !is_err(&r) && toks.first().map(|c| c == "clause-update" || c == "undo-update").unwrap_or(false) {
+                    let text = saved_cnf(&mut s.d, save_dir);
+                    let (n, cls) = crate::refcomp::parse_cnf(&text);
+                    s.tt = crate::refcomp::cnf_tt(n, &cls);
+                    s.export = export_nodes(&s.d);
+                    out.count("cnf_accepted_updates", 1);
+                    if s.tt.count() == 0 { // never leave the session on an unsatisfiable model
+                        s.d = load_cnf_session(&s.cnf_text, save_dir); s.tt = s.file.tt(); s.export = export_nodes(&s.d);
+                    }
+                }
+                return;
             }
             let first_line = r.lines().next().unwrap_or("");
             let reply_for_driver = if toks.first().map(|c| c == "t-wise").unwrap_or(false) && !is_err(&r) { "TWISE".to_string() } else { first_line.split_whitespace().collect::<Vec<_>>().join(" ") };
             out.query("msg", &format!("{} ||| {}", reply_for_driver, line), "agree");
         }
     }
+}
+
+fn load_cnf_session(text: &str, dir: &str) -> Ddnnf {
+    let p = format!("{dir}/session.cnf");
+    std::fs::write(&p, text).unwrap();
+    Ddnnf::from_file(std::path::Path::new(&p), None)
+}
+fn saved_cnf(d: &mut Ddnnf, dir: &str) -> String {
+    let p = format!("{dir}/session_saved.cnf");
+    let _ = std::fs::remove_file(&p);
+    let _ = guarded(|| d.handle_stream_msg(&format!("save-cnf p {p}")));
+    std::fs::read_to_string(&p).unwrap_or_default()
 }
 
 fn permute_groups(rng: &mut Rng, toks: &[String]) -> Option<Vec<String>> {
@@ -110,6 +138,82 @@ fn permute_groups(rng: &mut Rng, toks: &[String]) -> Option<Vec<String>> {
     let mut out = vec![toks[0].clone()];
     for g in groups { out.extend(g); }
     Some(out)
+}
+
+fn drive(out: &mut Out, rng: &mut Rng, s: &mut Session, thorough: bool, save_dir: &str) {
+        let alphabet: Vec<&str> = KEYWORDS.iter().chain(VALUES.iter()).copied().collect();
+        // exhaustive: command followed by up to `depth` tokens
+        let depth = 2;
+        let mut stack: Vec<Vec<usize>> = vec![vec![]];
+        while let Some(idx) = stack.pop() {
+            for (ci, cmd) in COMMANDS.iter().enumerate() {
+                // quick tier: thin out the deepest level
+                if idx.len() == depth && !thorough && (ci + idx.iter().sum::<usize>()) % 4 != 0 { continue; }
+                let mut toks = vec![cmd.to_string()];
+                toks.extend(idx.iter().map(|&i| alphabet[i].to_string()));
+                let line = toks.join(" ").replace("p abc", "p SAVEDIR/s.nnf").replace("path abc", "path SAVEDIR/s.nnf");
+                run_line(out, s, &line, &save_dir);
+            }
+            if idx.len() < depth { for i in 0..alphabet.len() { let mut n = idx.clone(); n.push(i); stack.push(n); } }
+        }
+        out.count("exhaustive_depth", depth as u64);
+        // random longer lines, mostly well-formed
+        for _ in 0..(if thorough { 12000 } else { 2500 }) {
+            let cmd = *rng.pick(COMMANDS);
+            let mut toks = vec![cmd.to_string()];
+            let groups = 1 + rng.below(3);
+            for _ in 0..groups {
+                let kw = *rng.pick(KEYWORDS);
+                toks.push(kw.to_string());
+                let nvals = rng.below(4);
+                for _ in 0..nvals {
+                    if rng.chance(0.75) { let v = 1 + rng.below(s.file.n as usize) as i32; toks.push(if rng.chance(0.5) { v.to_string() } else { (-v).to_string() }); }
+                    else { toks.push(rng.pick(VALUES).to_string()); }
+                }
+            }
+            if rng.chance(0.1) { let i = rng.below(toks.len()); let t = toks[i].clone(); toks.push(t); }
+            let line = toks.join(if rng.chance(0.1) { "  " } else { " " });
+            run_line(out, s, &line, &save_dir);
+            // parameter order
+            if rng.chance(0.3) && !matches!(cmd, "enum" | "random" | "t-wise") {
+                if let Some(p) = permute_groups(rng, &toks) {
+                    let has_alias_pair = [("a", "assumptions"), ("v", "variables"), ("l", "limit"), ("s", "seed"), ("p", "path"), ("f", "fitness"), ("t", "total-features")].iter().any(|(x, y)| toks.iter().any(|t| t == x) && toks.iter().any(|t| t == y));
+                    let (l1, l2) = (toks.join(" "), p.join(" "));
+                    if !resource_heavy(&toks) {
+                        let r1 = guarded(|| s.d.handle_stream_msg(&l1)).unwrap_or_else(|e| format!("panic: {e}"));
+                        let r2 = guarded(|| s.d.handle_stream_msg(&l2)).unwrap_or_else(|e| format!("panic: {e}"));
+                        out.count("order_pairs", 1);
+                        // both accepted, or both rejected; when accepted the answers agree
+                        if !is_err(&r1) && !is_err(&r2) && r1 != r2 {
+                            if has_alias_pair { out.count("order_dependent_alias_pairs", 1); }
+                            out.fail(if has_alias_pair { "parameter-order-alias" } else { "parameter-order" }, &s.file.text(), &format!("{:?} vs {:?}", l1, l2), &r2, &r1);
+                        }
+                    }
+                }
+            }
+        }
+        // printable junk
+        for _ in 0..(if thorough { 3000 } else { 500 }) {
+            let len = 1 + rng.below(30);
+            let line: String = (0..len).map(|_| { let c = 32 + rng.below(95) as u8; if c == b'|' { 'x' } else { c as char } }).collect();
+            run_line(out, s, &line, &save_dir);
+        }
+        // count / sat / core with assumptions and variables over all pairs of literals, incl. unsatisfiable assumptions
+        {
+            let lits: Vec<i32> = (1..=s.file.n as i32).flat_map(|x| [x, -x]).collect();
+            for &x in &lits { for &y in &lits {
+                for cmd in ["core", "count", "sat"] {
+                    if cmd != "core" && (x + y) % 3 != 0 { continue; }
+                    run_line(out, s, &format!("{cmd} a {x} v {y}"), &save_dir);
+                    if (x * 7 + y) % 5 == 0 { run_line(out, s, &format!("{cmd} v {y} {x} a {x} {}", -x), &save_dir); }
+                }
+            } }
+            for &x in &lits { run_line(out, s, &format!("core a {x}"), &save_dir); }
+        }
+        run_line(out, s, "", &save_dir);
+        run_line(out, s, "   ", &save_dir);
+        // the inputs of the repaired defects
+        for l in ["clause-update t 5", "count a -2147483648", "enum l 1", "enum l 18446744073709551615", "clause-update t 5 add 1 2", "clause-update total-features 0", "clause-update t 2..", "count a -2147483648..2147483647", "clause-update t 1..2147483647 add 1", "count a 1..2147483647 v 1", "count a 1..2 v 1..2", "t-wise l 1 f 0.5 0.5 0.5 0.5", "count a 1 v 1", "sat v 2 2"] { run_line(out, s, l, &save_dir); }
 }
 
 pub fn c13(a: &Args) {
@@ -128,81 +232,51 @@ pub fn c13(a: &Args) {
         let d = load(file).unwrap();
         let export = export_nodes(&d);
         out.circuit(&export, &circuit_line(&d));
-        let mut s = Session { d, file, tt, export };
-        let alphabet: Vec<&str> = KEYWORDS.iter().chain(VALUES.iter()).copied().collect();
-        // exhaustive: command followed by up to `depth` tokens
-        let depth = 2;
-        let mut stack: Vec<Vec<usize>> = vec![vec![]];
-        while let Some(idx) = stack.pop() {
-            for (ci, cmd) in COMMANDS.iter().enumerate() {
-                // quick tier: thin out the deepest level
-                if idx.len() == depth && !a.thorough() && (ci + idx.iter().sum::<usize>()) % 4 != 0 { continue; }
-                let mut toks = vec![cmd.to_string()];
-                toks.extend(idx.iter().map(|&i| alphabet[i].to_string()));
-                let line = toks.join(" ").replace("p abc", "p SAVEDIR/s.nnf").replace("path abc", "path SAVEDIR/s.nnf");
-                run_line(&mut out, &mut s, &line, &save_dir);
-            }
-            if idx.len() < depth { for i in 0..alphabet.len() { let mut n = idx.clone(); n.push(i); stack.push(n); } }
-        }
-        out.count("exhaustive_depth", depth as u64);
-        // random longer lines, mostly well-formed
-        for _ in 0..(if a.thorough() { 12000 } else { 2500 }) {
-            let cmd = *rng.pick(COMMANDS);
-            let mut toks = vec![cmd.to_string()];
-            let groups = 1 + rng.below(3);
-            for _ in 0..groups {
-                let kw = *rng.pick(KEYWORDS);
-                toks.push(kw.to_string());
-                let nvals = rng.below(4);
-                for _ in 0..nvals {
-                    if rng.chance(0.75) { let v = 1 + rng.below(file.n as usize) as i32; toks.push(if rng.chance(0.5) { v.to_string() } else { (-v).to_string() }); }
-                    else { toks.push(rng.pick(VALUES).to_string()); }
-                }
-            }
-            if rng.chance(0.1) { let i = rng.below(toks.len()); let t = toks[i].clone(); toks.push(t); }
-            let line = toks.join(if rng.chance(0.1) { "  " } else { " " });
-            run_line(&mut out, &mut s, &line, &save_dir);
-            // parameter order
-            if rng.chance(0.3) && !matches!(cmd, "enum" | "random" | "t-wise") {
-                if let Some(p) = permute_groups(&mut rng, &toks) {
-                    let has_alias_pair = [("a", "assumptions"), ("v", "variables"), ("l", "limit"), ("s", "seed"), ("p", "path"), ("f", "fitness"), ("t", "total-features")].iter().any(|(x, y)| toks.iter().any(|t| t == x) && toks.iter().any(|t| t == y));
-                    let (l1, l2) = (toks.join(" "), p.join(" "));
-                    if !resource_heavy(&toks) {
-                        let r1 = guarded(|| s.d.handle_stream_msg(&l1)).unwrap_or_else(|e| format!("panic: {e}"));
-                        let r2 = guarded(|| s.d.handle_stream_msg(&l2)).unwrap_or_else(|e| format!("panic: {e}"));
-                        out.count("order_pairs", 1);
-                        // both accepted, or both rejected; when accepted the answers agree
-                        if !is_err(&r1) && !is_err(&r2) && r1 != r2 {
-                            if has_alias_pair { out.count("order_dependent_alias_pairs", 1); }
-                            out.fail(if has_alias_pair { "parameter-order-alias" } else { "parameter-order" }, &file.text(), &format!("{:?} vs {:?}", l1, l2), &r2, &r1);
-                        }
-                    }
-                }
-            }
-        }
-        // printable junk
-        for _ in 0..(if a.thorough() { 3000 } else { 500 }) {
-            let len = 1 + rng.below(30);
-            let line: String = (0..len).map(|_| { let c = 32 + rng.below(95) as u8; if c == b'|' { 'x' } else { c as char } }).collect();
-            run_line(&mut out, &mut s, &line, &save_dir);
-        }
-        // count / sat / core with assumptions and variables over all pairs of literals, incl. unsatisfiable assumptions
-        {
-            let lits: Vec<i32> = (1..=file.n as i32).flat_map(|x| [x, -x]).collect();
-            for &x in &lits { for &y in &lits {
-                for cmd in ["core", "count", "sat"] {
-                    if cmd != "core" && (x + y) % 3 != 0 { continue; }
-                    run_line(&mut out, &mut s, &format!("{cmd} a {x} v {y}"), &save_dir);
-                    if (x * 7 + y) % 5 == 0 { run_line(&mut out, &mut s, &format!("{cmd} v {y} {x} a {x} {}", -x), &save_dir); }
-                }
-            } }
-            for &x in &lits { run_line(&mut out, &mut s, &format!("core a {x}"), &save_dir); }
-        }
-        run_line(&mut out, &mut s, "", &save_dir);
-        run_line(&mut out, &mut s, "   ", &save_dir);
-        // the inputs of the repaired defects
-        for l in ["clause-update t 5", "count a -2147483648", "enum l 1", "enum l 18446744073709551615", "clause-update t 5 add 1 2", "clause-update total-features 0", "clause-update t 2..", "count a -2147483648..2147483647", "clause-update t 1..2147483647 add 1", "count a 1..2147483647 v 1", "count a 1..2 v 1..2", "t-wise l 1 f 0.5 0.5 0.5 0.5", "count a 1 v 1", "sat v 2 2"] { run_line(&mut out, &mut s, l, &save_dir); }
+        let mut s = Session { d, file, tt: tt.clone(), export, cnf: false, cnf_text: String::new() };
+        drive(&mut out, &mut rng, &mut s, a.thorough(), &save_dir);
         out.sample(format!("model n={} : {}", file.n, file.lines.join(" / ")));
     }
-    out.finish("nnf-loaded models: every line `command t1 t2` (quick: the two-token level thinned to a quarter) over 14 commands x 37 tokens (all parameter keywords in both spellings, numbers, ranges, 0, out-of-range and extreme numbers, malformed numbers, a path), random longer lines with 1..3 parameter groups (duplicates injected), printable junk, empty lines, the inputs of the repaired defects; each reply: no panic, result or E1..E6, rejected line leaves the model unchanged, count/sat answers of the well-formed subset vs truth table, parameter groups permuted; every reply compared with the Lean model of handle_stream_msg (exact text where literal, code otherwise) on one long-lived instance (cursor state included). Lines asking `random`/`t-wise` for more than 10^4 / t>3 samples are skipped (resource question, not modelled).");
+    // a model loaded from a CNF (reference compiler behind the hook): same alphabet, plus clause commands.
+    // Replies are judged by the oracle only (result or E1..E6, no panic, a rejected line changes neither the
+    // model nor the stored clauses, count / sat / core of the well-formed subset vs the current clause set);
+    // the Lean model of the handler covers the nnf-loaded case, the clause cache is C12's model.
+    {
+        crate::refcomp::install();
+        for _ in 0..(if a.thorough() { 3 } else { 1 }) {
+            let n = 4 + rng.below(2) as u32;
+            let cls: Vec<crate::refcomp::Clause> = loop {
+                let m = 2 + rng.below(4);
+                let cls: Vec<crate::refcomp::Clause> = (0..m).map(|_| { let w = 1 + rng.below(3); let mut c = crate::refcomp::Clause::new(); while c.len() < w { let v = 1 + rng.below(n as usize) as i32; if c.contains(&v) || c.contains(&-v) { continue; } c.insert(if rng.chance(0.5) { v } else { -v }); } c }).collect();
+                let t = crate::refcomp::cnf_tt(n, &cls);
+                if t.count() >= 3 && t.count() < (1 << n) { break cls; }
+            };
+            let text = crate::refcomp::cnf_text(n, &cls);
+            let file = GenFile { fmt: crate::gen::Fmt::D4, lines: crate::refcomp::compile_cnf(n, &cls, None), n, origin: "cnf".into() };
+            let Ok(d) = guarded(|| load_cnf_session(&text, &save_dir)) else { out.fail("cnf-load-panic", &text, "load", "panic", "a model"); continue };
+            let export = export_nodes(&d);
+            let mut s = Session { d, file: &file, tt: crate::refcomp::cnf_tt(n, &cls), export, cnf: true, cnf_text: text.clone() };
+            drive(&mut out, &mut rng, &mut s, a.thorough(), &save_dir);
+            // clause commands with plausible arguments
+            for _ in 0..(if a.thorough() { 1500 } else { 400 }) {
+                let lit = |rng: &mut Rng| { let v = 1 + rng.below(n as usize + 1) as i32; if rng.chance(0.5) { v } else { -v } };
+                let clause = |rng: &mut Rng| { let w = 1 + rng.below(3); (0..w).map(|_| lit(rng).to_string()).collect::<Vec<_>>().join(" ") };
+                let line = match rng.below(10) {
+                    0 => "undo-update".to_string(),
+                    1 => format!("clause-update add {} 0", clause(&mut rng)),
+                    2 => format!("clause-update rmv {} 0", clause(&mut rng)),
+                    3 => format!("clause-update add {} 0 {} 0 rmv {}", clause(&mut rng), clause(&mut rng), clause(&mut rng)),
+                    4 => format!("clause-update t {} add {}", n as i32 + rng.below(3) as i32 - 1, clause(&mut rng)),
+                    5 => format!("clause-update add {} 0 0", clause(&mut rng)),
+                    6 => format!("clause-update rmv {} t {}", clause(&mut rng), n + 1),
+                    7 => format!("save-cnf p {}", if rng.chance(0.5) { format!("{save_dir}/x.cnf") } else { "relative.cnf".to_string() }),
+                    8 => format!("clause-update add {} {}", clause(&mut rng), rng.pick(VALUES)),
+                    _ => format!("count a {}", lit(&mut rng)),
+                };
+                run_line(&mut out, &mut s, &line, &save_dir);
+            }
+            out.count("cnf_sessions", 1);
+            out.sample(format!("CNF-loaded model: {}", text.replace('\n', " / ")));
+        }
+    }
+    out.finish("nnf-loaded models (and, judged by the oracle only, a model loaded from a CNF with clause-update / undo-update / save-cnf lines): every line `command t1 t2` (quick: the two-token level thinned to a quarter) over 14 commands x 37 tokens (all parameter keywords in both spellings, numbers, ranges, 0, out-of-range and extreme numbers, malformed numbers, a path), random longer lines with 1..3 parameter groups (duplicates injected), printable junk, empty lines, the inputs of the repaired defects; each reply: no panic, result or E1..E6, rejected line leaves the model unchanged, count/sat answers of the well-formed subset vs truth table, parameter groups permuted; every reply compared with the Lean model of handle_stream_msg (exact text where literal, code otherwise) on one long-lived instance (cursor state included). Lines asking `random`/`t-wise` for more than 10^4 / t>3 samples are skipped (resource question, not modelled).");
 }
